@@ -12,7 +12,7 @@ class C15(Prop):
     id = "C15"
     driver = "Env"
     quick_n = 120
-    thorough_n = 3000
+    thorough_n = 12000
     exhaustive_flag = True
     rule = ("(a) episodes: grids of 3..10 timesteps with gaps (timesteps without events), fold dictionaries including "
             "overlapping folds and folds that cut the grid, configured episode lengths 1..fold size+1, every start "
